@@ -6,7 +6,7 @@ hs = []
 for a, b, n, dst in [(1, 1, 1, True), (1, 1, 1, False), (1, 1, 2, True), (1, 1, 3, True), (2, 1, 2, True), (1, 2, 2, True), (0, 1, 2, True), (1, 0, 2, True), (0, 0, 2, True), (2, 2, 3, True), (2, 1, 4, True)]:
     name = "c32_glob_%d_%d_%d" % (a, b, n) + ("" if dst else "_nodst")
     big = (a, b, n) in [(2, 2, 3), (2, 1, 4)]
-    hs.append(H(P + name, tier="thorough" if big else "quick", timeout=900, mem=10, covers=3 if dst else 2, extra_args=STUB, thorough_timeout=2400,
+    hs.append(H(P + name, tier="thorough" if big else "quick", timeout=900, mem=10, covers=2, extra_args=STUB, thorough_timeout=2400,
                 desc="one glob fetch spec <a>*<b>%s against one remote ref: same match verdict and destination as git's match_name_with_pattern; no panic" % (":x*<d>" if dst else " (no destination)"),
                 inputs="a: %d bytes, b: %d bytes, ref name: %d bytes, d: 1 byte - all values without '*'%s" % (a, b, n, "; name shorter than prefix+suffix (overlap case)" if n < a + b else ""),
                 bound="unwind 8"))
